@@ -80,6 +80,7 @@ def main():
     results = core.keep_property(core.run_jobs(jobs), 'C10')
     rep.add_results(results)
     core.triage(rep, results, info)
+    rep.validate_translation(info)
     return rep.finish('proof', 'goto-cc | goto-instrument --dfcc harness --enforce-contract <T>_read --replace-call-with-contract AbstractFile_v_read ... | cbmc ' + ' '.join(core.CBMC_FLAGS),
                       core.TRUSTED_BASE)
 
